@@ -18,7 +18,7 @@ from concurrent.futures import ProcessPoolExecutor, as_completed
 
 VERIF = os.path.dirname(os.path.dirname(os.path.abspath(__file__)))
 OUT = os.path.join(VERIF, "out")
-EVID = os.path.join(VERIF, "evidence")
+EVID = os.environ.get("VERIF_EVIDENCE_DIR") or os.path.join(VERIF, "evidence")  # (scratch runs on mutated trees set the variable)
 KNOWN = os.path.join(VERIF, "KNOWN_FINDINGS.txt")
 
 DISCHARGED, FAILED, UNDECIDED, ERROR = "discharged", "failed", "undecided", "error"
